@@ -9,8 +9,15 @@ from core import CheckerError, parse_kind, KRef
 def clause(c):
     """A clause is 'expr' or ('C04,C05', 'expr'): -> (expr, tags or None)."""
     if isinstance(c, tuple):
-        return c[1], set(x.strip() for x in c[0].split(','))
+        return c[1], (set(x.strip() for x in c[0].split(',')) if c[0] else None)
     return c, None
+
+
+def clause_label(c, j):
+    """Stable label of a clause: ('C03', 'expr', 'label') -> 'label', else its index."""
+    if isinstance(c, tuple) and len(c) > 2:
+        return c[2]
+    return str(j)
 
 
 class Contract:
